@@ -138,6 +138,8 @@ func scenarios() []e3.Scenario {
 		role := map[bool]string{true: "active", false: "passive"}[active]
 		{
 			var closeErr error
+			var closeReturned atomic.Bool
+			var checkedAfterClose bool
 			out = append(out, e3.Scenario{
 				Name: role + "-drop-reconnect-vs-close", Horizon: 60 * time.Second,
 				Setup: func(e *e3.Env) {
@@ -147,9 +149,27 @@ func scenarios() []e3.Scenario {
 						panic(err)
 					}
 					pc := e.W.Peer
-					e.Thread("peer", func() { _ = pc.Close() })
-					e.Thread("clock", func() { vsched.Tick(); vsched.Tick() })
-					e.Thread("close", func() { closeErr = e.W.C.Close() })
+					closeReturned.Store(false)
+					checkedAfterClose = false
+					// thread names give the canonical order: the drop, then Close, then the clock;
+					// one departure lets the backoff timer (and the loop's publish) land inside Close
+					e.Thread("1peer", func() { _ = pc.Close() })
+					e.Thread("2close", func() { closeErr = e.W.C.Close(); closeReturned.Store(true) })
+					e.Thread("3clock", func() { vsched.Tick(); vsched.Tick() })
+				},
+				Monitor: func(e *e3.Env) {
+					// at the first scheduling point after Close returned no library goroutine may
+					// be left (the only other threads are the peer and the clock)
+					if closeReturned.Load() && !checkedAfterClose {
+						checkedAfterClose = true
+						if gs := e2.LibGoroutines(); len(gs) > 0 {
+							s := strings.Join(gs, "\n")
+							if len(s) > 1200 {
+								s = s[:1200]
+							}
+							e.Violate("goroutine-after-close-returned", "Close() has returned but %d library goroutines are still alive:\n%s", len(gs), s)
+						}
+					}
 				},
 				Finish: func(e *e3.Env) {
 					if closeErr != nil {
@@ -172,9 +192,9 @@ func scenarios() []e3.Scenario {
 						panic(err)
 					}
 					pc := e.W.Peer
-					e.Thread("peer", func() { _ = pc.Close() })
-					e.Thread("clock", func() { vsched.Tick() })
-					e.Thread("app", func() {
+					e.Thread("1peer", func() { _ = pc.Close() })
+					e.Thread("3clock", func() { vsched.Tick() })
+					e.Thread("2app", func() {
 						closeErr = e.W.C.Close()
 						openErr = e.W.C.Open(context.Background(), hsms.OpenBackground)
 					})
@@ -266,7 +286,7 @@ func TestCheck(t *testing.T) {
 			}
 			for _, sc := range scenarios() {
 				if sc.Name == r.Scenario {
-					res := e3.RunOnce(t, sc, r.Choices, nil)
+					res := e3.RunOnce(t, sc, r.Choices, nil, r.Demote)
 					c.Case(true)
 					for _, v := range res.Viols {
 						c.Violate(sc.Name+":"+v.Key, v.Desc, r)
